@@ -222,12 +222,12 @@ Qed.
 
 (* unless a prefix and a pattern are given together, the implementation's selection is the requested one *)
 Lemma impl_sel_spec : forall start incl prefix pat excl d,
-  trig_both prefix pat = false ->
+  trig_narrow prefix pat = false ->
   impl_sel start incl prefix pat excl d = filter (spec_sel start incl prefix pat excl) d.
 Proof.
   intros start incl prefix pat excl d Ht. unfold impl_sel, cand. rewrite filter_filter.
   apply filter_ext_in_eq. intros e _. unfold sel, good, okE, spec_sel.
-  rewrite <- (match_agrees prefix pat excl (ename e) Ht).
+  rewrite <- (match_agrees_narrow prefix pat excl (ename e) Ht).
   destruct (after start incl (ename e)), (elive e), (String.prefix (eff_prefix prefix pat) (ename e)); reflexivity.
 Qed.
 
@@ -267,7 +267,7 @@ Definition exact_at (s : store) (d : dirst) (start : string) (incl : bool) (L : 
     wf (r_dir r) /\ filter elive (r_dir r) = filter elive d.
 
 Theorem list_entries_exact : forall s d start incl L prefix pat excl,
-  wf d -> trig_both prefix pat = false -> exact_at s d start incl L prefix pat excl.
+  wf d -> trig_narrow prefix pat = false -> exact_at s d start incl L prefix pat excl.
 Proof.
   intros s d start incl L prefix pat excl Hwf Ht. unfold exact_at, list_entries.
   destruct (stream_list_spec s d start incl (S L) prefix pat excl Hwf) as [r [E [S1 [S2 S3]]]].
@@ -327,7 +327,7 @@ Proof.
 Qed.
 
 Theorem paginate_exact : forall fuel s d start incl L prefix pat excl,
-  wf d -> trig_both prefix pat = false -> 0 < L ->
+  wf d -> trig_narrow prefix pat = false -> 0 < L ->
   length (spec_names d start incl prefix pat excl) < fuel ->
   exists pages, paginate fuel s d start incl L prefix pat excl = Some pages /\
                 List.concat pages = spec_names d start incl prefix pat excl /\
@@ -381,7 +381,7 @@ Proof.
   induction fuel as [|f IH]; intros s d start incl L prefix Hwf HL Hf; [lia|].
   cbn [paginate_stream].
   assert (Hspec : forall d' st inc, spec_names d' st inc prefix "" "" = map ename (impl_sel st inc prefix "" "" d')).
-  { intros. unfold spec_names. rewrite impl_sel_spec by apply trig_both_none. reflexivity. }
+  { intros. unfold spec_names. rewrite impl_sel_spec by apply trig_narrow_none. reflexivity. }
   destruct (stream_list_inv s d start incl L prefix "" "" Hwf) as [r [m [E [[S1 [S2 [_ [S4 [S6 [_ S5]]]]]] S0]]]].
   rewrite E.
   set (p := eff_prefix prefix "") in *. set (rest := snd (split_pattern "")) in *.
